@@ -1,5 +1,5 @@
 """Workload building blocks shared by the property monitors."""
-import contextlib, hashlib, math
+import contextlib, hashlib, math, os
 import numpy as np
 import torch
 
@@ -74,9 +74,40 @@ def impulses(spatial, dtype=torch.float64):
     return torch.eye(n, dtype=dtype).reshape(n, 1, *spatial)
 
 
+# Context rotation.  A transform's result may not depend on whether autograd is recording (C15), so every
+# differential check is entitled to make any module call whose arguments carry no gradient inside
+# torch.no_grad() / torch.set_grad_enabled(False): the oracle that judges the call stays the same.  Two
+# calls in six are made that way (deterministic in the per-cell call counter, so a replay repeats it).
+CTX = {'n': 0, 'plain': 0, 'no_grad': 0, 'set_grad_enabled(False)': 0, 'on': os.environ.get('VERIF_CTX_ROTATION', '1') == '1'}
+
+
+def reset_ctx():
+    CTX['n'] = 0
+
+
+def _needs_grad(o):
+    if isinstance(o, torch.Tensor):
+        return o.requires_grad
+    if isinstance(o, (list, tuple)):
+        return any(_needs_grad(e) for e in o)
+    if isinstance(o, dict):
+        return any(_needs_grad(e) for e in o.values())
+    return False
+
+
 def call_lib(fn, *a, **k):
+    mode = 'plain'
+    if CTX['on'] and isinstance(fn, torch.nn.Module) and torch.is_grad_enabled():
+        CTX['n'] += 1
+        pick = {2: 'no_grad', 5: 'set_grad_enabled(False)'}.get(CTX['n'] % 6)
+        if pick and not _needs_grad(a) and not _needs_grad(k) and not any(p.requires_grad for p in fn.parameters()):
+            mode = pick
+    CTX[mode] += 1
     try:
-        return True, fn(*a, **k)
+        if mode == 'plain':
+            return True, fn(*a, **k)
+        with (torch.no_grad() if mode == 'no_grad' else torch.set_grad_enabled(False)):
+            return True, fn(*a, **k)
     except Exception as e:     # the library raising is an observation, not a harness error
         return False, e
 
